@@ -106,6 +106,19 @@ class SecurityControlField:
             service=s_al_service,
         )
 
+    def __eq__(self, other: object) -> bool:
+        """Equal operator."""
+        if not isinstance(other, SecurityControlField):
+            return NotImplemented
+        return (
+            self.tool_access == other.tool_access
+            and self.algorithm == other.algorithm
+            and self.system_broadcast == other.system_broadcast
+            and self.service == other.service
+        )
+
+    __hash__ = None  # type: ignore[assignment]  # mutable
+
     def to_knx(self) -> bytes:
         """Serialize to KNX raw data."""
         raw = 0
@@ -140,6 +153,18 @@ class SecureData:
         self.sequence_number_bytes = sequence_number_bytes
         self.secured_apdu = secured_apdu
         self.message_authentication_code = message_authentication_code
+
+    def __eq__(self, other: object) -> bool:
+        """Equal operator."""
+        if not isinstance(other, SecureData):
+            return NotImplemented
+        return (
+            self.sequence_number_bytes == other.sequence_number_bytes
+            and self.secured_apdu == other.secured_apdu
+            and self.message_authentication_code == other.message_authentication_code
+        )
+
+    __hash__ = None  # type: ignore[assignment]  # mutable
 
     def __len__(self) -> int:
         """Return length of KNX Data Secure ASDU."""
